@@ -13,7 +13,7 @@ EXTENDS ExecutorAbs, Json, IOUtils
 Rec == ndJsonDeserialize(IOEnv.TRACE)
 
 VARIABLE l
-tvars == <<st, woken, cur, ph, blk, left, sig, wt, relay, rw, par, seen, ov, l>>
+tvars == <<st, woken, cur, ph, blk, left, sig, wt, relay, rw, par, seen, ov, run, rc, l>>
 
 TraceInit == l = 1 /\ AInit
 
@@ -24,7 +24,9 @@ Match(r) ==
   \/ r.ev = "spawn"    /\ Spawn(r.t, r.a, r.b)
   \/ r.ev = "kick"     /\ Kick(r.t, r.a)
   \/ r.ev = "try"      /\ Try(r.a, r.r, r.v)
-  \/ r.ev = "pb"       /\ r.t \in Tasks /\ PollBegin(r.t)
+  \/ r.ev = "pb"       /\ r.t \in Tasks /\ \E D \in SUBSET DoneWoken : PollBeginD(r.t, D)
+  \/ r.ev = "rb"       /\ RunBegin
+  \/ r.ev = "re"       /\ RunEnd(r.v)
   \/ r.ev = "noop"     /\ r.b /\ \E d \in woken : Noop(d)
   \/ r.ev = "pe"       /\ PollEnd(r.t, r.b)
   \/ r.ev = "stall"    /\ Stall
